@@ -144,5 +144,28 @@ func checkDefs() map[string]CheckDef {
 		BoundsText: "Allocation/State/Transaction: 1 asset (2 thorough), 1..2 participants, locked nil/empty/1 sub-allocation (2 thorough) with nil/empty/full index map, NoApp or MockApp with data, signatures nil/all-nil/any subset; Balances 0..2 x 0..2 and nil; CloneSigs; Params with 2..3 participants; machines (StateMachine, ActionMachine, CloneSource, FromSource) in any phase with staging/current transactions absent or present (with locked funds and partial signatures); the mutation is applied to the original or to the clone (both directions)",
 		Outside:    []string{"larger dimensions", "backends other than sim"},
 	})
+	persistAssume := append(append([]string{}, machAssume...),
+		"store: the real keyvalue.PersistRestorer over the real polycry.pt/poly-go sortedkv tables and memorydb; crash granularity = store write events (a single Put/Delete outside a batch, or one Batch.Apply; batches are atomic per the store's contract)",
+		"channel IDs and store keys are concrete (parameters are concrete, hashed with the real SHA-256); state leaves are symbolic",
+		"an empty staging transaction (no state, no signature) is the same whatever its number of empty signature slots")
+	add(CheckDef{
+		ID: "C10",
+		Obligations: []Obligation{
+			{Pkg: "internal/verifh/c10", Harness: "VerifC10Step", Quick: map[string]int{"sigKinds": 2, "curKinds": 1, "parents": 1, "owns": 1}, Thor: map[string]int{"sigKinds": 3, "curKinds": 2, "parents": 2, "owns": 2}, TV: 30},
+			{Pkg: "internal/verifh/c10", Harness: "VerifC10Width", TV: 10},
+		},
+		Assumptions: persistAssume,
+		BoundsText:  "one inductive step: arbitrary invariant-satisfying machine (any phase, current transaction absent/fully signed [/adopted in thorough], staging absent or present with any subset of signature slots) whose store is the full dump written by ChannelCreated (the step re-establishes 'store = dump of the machine' key for key and byte for byte, so one step covers histories of any length); one operation of the complete alphabet of the persisting machine (17 operations, symbolic arguments) with the crash point before write event 0, 1 or never; restore with RestoreChannel and rebuild with RestoreStateMachine; 2 participants; with/without parent (thorough); signature-key width: channels of 3, 10 and 11 participants with signatures in any two slots",
+		Outside:     []string{"LevelDB (file I/O, goroutines, compaction cannot be encoded)", "crashes inside a batch", "more than 2 participants in the step obligation"},
+	})
+	add(CheckDef{
+		ID: "C11",
+		Obligations: []Obligation{
+			{Pkg: "internal/verifh/c11", Harness: "VerifC11History", Quick: map[string]int{"h": 4}, Thor: map[string]int{"h": 5}, TV: 20},
+		},
+		Assumptions: persistAssume,
+		BoundsText:  "three channels of one client with peer lists {P}, {P,Q}, {Q}, the third a child of the first; all histories of h steps (h=4 quick, 5 thorough) over {create (real API up to Acting), advance (full update, or stopped after the own signature), remove} x channel; after every step: RestoreAll, RestorePeer(P), RestorePeer(Q), ActivePeers, RestoreChannel for all three and the raw key set are compared with the reference set of live channels; restored data is compared leaf by leaf with the live machines",
+		Outside:     []string{"LevelDB", "more than three channels / two peers", "channel IDs whose relative order differs from the three concrete ones"},
+	})
 	return defs
 }
